@@ -11,7 +11,8 @@ space do not enter these code paths (and the model has none).
 
 The second half is a BUFFER-level model of the `out=` branch of the wrappers: elements are trees
 of buffer ids into a heap; the wrappers write part by part, in order, through
-`zip(self.elem, out)` (which truncates silently).
+`zip(self.elem, out)` after a part-count check (since /repo 2fbe3b2; before, `zip` truncated
+silently: `psMapIntoOld`).
 
 Core Lean only; executed by `Drivers/C17.lean` (ops `psred`, `psmap`, `psbin`, `psinto`).
 -/
@@ -149,23 +150,45 @@ def bufsParts : List BTree → List Nat
 end
 
 mutual
-/-- `(1,1)` wrapper with `out` given:
+/-- `(1,1)` wrapper with `out` given (code as of /repo 2fbe3b2):
+`if len(out) != len(self.elem): raise ValueError`;
 `for x, out_x in zip(self.elem, out): getattr(x.ufuncs, name)(out=out_x)`; `return out`.
+The part-count check comes BEFORE the loop, at every level of nesting (the parts' own wrappers
+make it again), so a rejected call at the top level has written nothing (`none`: no heap).
 At a leaf NumPy writes `f(x)` into the out buffer (sizes must agree, else its `ValueError`:
-`none`); `zip` stops at the shorter of the two part lists WITHOUT an error; the writes happen in
-order, each reading the heap as the previous writes left it (aliasing is not checked by the
-code).  A leaf against a node is not described (`none`). -/
+`none`); the writes happen in order, each reading the heap as the previous writes left it
+(aliasing is not checked by the code).  A leaf against a node is not described (`none`). -/
 def psMapInto (f : K → K) (h : Heap K) : BTree → BTree → Option (Heap K)
   | .buf i, .buf j =>
       match h[i]?, h[j]? with
       | some v, some w => if v.length = w.length then some (h.set j (v.map f)) else none
       | _, _ => none
-  | .node ps, .node qs => psMapIntoParts f h ps qs
+  | .node ps, .node qs =>
+      if ps.length = qs.length then psMapIntoParts f h ps qs else none
   | _, _ => none
 def psMapIntoParts (f : K → K) (h : Heap K) : List BTree → List BTree → Option (Heap K)
   | p :: ps, q :: qs =>
     match psMapInto f h p q with
     | some h' => psMapIntoParts f h' ps qs
+    | none => none
+  | _, _ => some h
+end
+
+mutual
+/-- OLD VARIANT (the wrapper BEFORE /repo 2fbe3b2, defect C17-F14): no part-count check, `zip`
+stops at the shorter of the two part lists without an error.  Kept only for the sensitivity
+theorem `C17.psMapInto_part_count_unchecked_fails`; not the code any more. -/
+def psMapIntoOld (f : K → K) (h : Heap K) : BTree → BTree → Option (Heap K)
+  | .buf i, .buf j =>
+      match h[i]?, h[j]? with
+      | some v, some w => if v.length = w.length then some (h.set j (v.map f)) else none
+      | _, _ => none
+  | .node ps, .node qs => psMapIntoPartsOld f h ps qs
+  | _, _ => none
+def psMapIntoPartsOld (f : K → K) (h : Heap K) : List BTree → List BTree → Option (Heap K)
+  | p :: ps, q :: qs =>
+    match psMapIntoOld f h p q with
+    | some h' => psMapIntoPartsOld f h' ps qs
     | none => none
   | _, _ => some h
 end
